@@ -164,6 +164,8 @@ enum GCTask {
         keep: u32,
     },
     Drain(tokio::sync::oneshot::Sender<()>),
+    #[cfg(feature = "verif")]
+    VerifStop,
 }
 
 #[derive(Clone)]
@@ -176,6 +178,8 @@ pub struct Store {
     contexts: Arc<RwLock<HashSet<Scru128Id>>>,
     broadcast_tx: broadcast::Sender<Frame>,
     gc_tx: UnboundedSender<GCTask>,
+    #[cfg(feature = "verif")]
+    verif: crate::verif::Hooks,
 }
 
 impl Store {
@@ -200,6 +204,11 @@ impl Store {
             .unwrap();
 
         let (broadcast_tx, _) = broadcast::channel(1024);
+        #[cfg(feature = "verif")]
+        let broadcast_tx = match crate::verif::broadcast_cap() {
+            Some(n) => broadcast::channel(n).0,
+            None => broadcast_tx,
+        };
         let (gc_tx, gc_rx) = mpsc::unbounded_channel();
 
         let mut contexts = HashSet::new();
@@ -214,6 +223,8 @@ impl Store {
             contexts: Arc::new(RwLock::new(contexts)),
             broadcast_tx,
             gc_tx,
+            #[cfg(feature = "verif")]
+            verif: crate::verif::Hooks::default(),
         };
 
         // Load context registrations
@@ -232,12 +243,20 @@ impl Store {
     pub async fn wait_for_gc(&self) {
         let (tx, rx) = tokio::sync::oneshot::channel();
         let _ = self.gc_tx.send(GCTask::Drain(tx));
+        #[cfg(feature = "verif")]
+        self.verif.gc_enqueued(crate::verif::GcKind::Drain);
         let _ = rx.await;
     }
 
     #[tracing::instrument(skip(self))]
     pub async fn read(&self, options: ReadOptions) -> tokio::sync::mpsc::Receiver<Frame> {
         let (tx, rx) = tokio::sync::mpsc::channel(100);
+        #[cfg(feature = "verif")]
+        let (tx, rx) = crate::verif::delivery_channel(tx, rx);
+        #[cfg(feature = "verif")]
+        let vr = self.verif.begin_read();
+        #[cfg(feature = "verif")]
+        let tx = vr.tx(tx);
 
         let should_follow = matches!(
             options.follow,
@@ -253,17 +272,34 @@ impl Store {
             None
         };
 
+        #[cfg(feature = "verif")]
+        let broadcast_rx = broadcast_rx.map(|r| vr.brx(r));
+        #[cfg(feature = "verif")]
+        vr.point("read.sub");
+
         // Only create done channel if we're doing historical processing
         let done_rx = if !options.tail {
             let (done_tx, done_rx) = tokio::sync::oneshot::channel();
+            #[cfg(feature = "verif")]
+            let (done_tx, done_rx) = vr.done(done_tx, done_rx);
             let tx_clone = tx.clone();
+            #[cfg(feature = "verif")]
+            let tx_clone = tx_clone.role(vr.hist(), "hist.send");
             let store = self.clone();
             let options = options.clone();
             let should_follow_clone = should_follow;
             let gc_tx = self.gc_tx.clone();
+            #[cfg(feature = "verif")]
+            let vr_hist = vr.clone();
+            #[cfg(feature = "verif")]
+            vr.spawned(vr.hist());
 
             // Spawn OS thread to handle historical events
             std::thread::spawn(move || {
+                #[cfg(feature = "verif")]
+                let _vguard = vr_hist.guard(vr_hist.hist());
+                #[cfg(feature = "verif")]
+                vr_hist.point_as("hist.start", vr_hist.hist());
                 let mut last_id = None;
                 let mut count = 0;
 
@@ -271,6 +307,10 @@ impl Store {
                     if let Some(TTL::Time(ttl)) = frame.ttl.as_ref() {
                         if is_expired(&frame.id, ttl) {
                             let _ = gc_tx.send(GCTask::Remove(frame.id));
+                            #[cfg(feature = "verif")]
+                            store
+                                .verif
+                                .gc_enqueued(crate::verif::GcKind::Remove(&frame.id));
                             continue;
                         }
                     }
@@ -315,9 +355,17 @@ impl Store {
             {
                 let tx = tx.clone();
                 let limit = options.limit;
+                #[cfg(feature = "verif")]
+                let tx = tx.role(vr.live(), "live.send");
+                #[cfg(feature = "verif")]
+                let vr_live = vr.clone();
+                #[cfg(feature = "verif")]
+                vr.spawned(vr.live());
 
                 tokio::spawn(async move {
                     // If we have a done_rx, wait for historical processing
+                    #[cfg(feature = "verif")]
+                    let _vguard = vr_live.guard(vr_live.live());
                     let (last_id, mut count) = match done_rx {
                         Some(done_rx) => match done_rx.await {
                             Ok((id, count)) => (id, count),
@@ -359,7 +407,15 @@ impl Store {
             // Handle heartbeat if requested
             if let FollowOption::WithHeartbeat(duration) = options.follow {
                 let heartbeat_tx = tx;
+                #[cfg(feature = "verif")]
+                let heartbeat_tx = heartbeat_tx.role(vr.beat(), "beat.send");
+                #[cfg(feature = "verif")]
+                let vr_beat = vr.clone();
+                #[cfg(feature = "verif")]
+                vr.spawned(vr.beat());
                 tokio::spawn(async move {
+                    #[cfg(feature = "verif")]
+                    let _vguard = vr_beat.guard(vr_beat.beat());
                     loop {
                         tokio::time::sleep(duration).await;
                         let frame =
@@ -390,6 +446,9 @@ impl Store {
                 if let Some(TTL::Time(ttl)) = frame.ttl.as_ref() {
                     if is_expired(&frame.id, ttl) {
                         let _ = self.gc_tx.send(GCTask::Remove(frame.id));
+                        #[cfg(feature = "verif")]
+                        self.verif
+                            .gc_enqueued(crate::verif::GcKind::Remove(&frame.id));
                         return false;
                     }
                 }
@@ -433,8 +492,12 @@ impl Store {
             self.contexts.write().unwrap().remove(&frame.id);
         }
 
+        #[cfg(feature = "verif")]
+        self.verif.point("commit.pre", Some(&frame));
         batch.commit()?;
         self.keyspace.persist(fjall::PersistMode::SyncAll)?;
+        #[cfg(feature = "verif")]
+        self.verif.point("commit.post", Some(&frame));
         Ok(())
     }
 
@@ -483,13 +546,21 @@ impl Store {
         batch.insert(&self.frame_partition, frame.id.as_bytes(), encoded);
         batch.insert(&self.idx_topic, topic_key, b"");
         batch.insert(&self.idx_context, idx_context_key_from_frame(frame), b"");
+        #[cfg(feature = "verif")]
+        self.verif.point("commit.pre", Some(frame));
         batch.commit()?;
         self.keyspace.persist(fjall::PersistMode::SyncAll)?;
+        #[cfg(feature = "verif")]
+        self.verif.point("commit.post", Some(frame));
         Ok(())
     }
 
     pub fn append(&self, mut frame: Frame) -> Result<Frame, crate::error::Error> {
+        #[cfg(feature = "verif")]
+        self.verif.point("append.enter", None);
         frame.id = scru128::new();
+        #[cfg(feature = "verif")]
+        self.verif.point("append.id", Some(&frame));
 
         // Special handling for xs.context registration
         if frame.topic == "xs.context" {
@@ -520,10 +591,20 @@ impl Store {
                     topic: frame.topic.clone(),
                     keep: n,
                 });
+                #[cfg(feature = "verif")]
+                self.verif.gc_enqueued(crate::verif::GcKind::CheckHead {
+                    context_id: &frame.context_id,
+                    topic: &frame.topic,
+                    keep: n,
+                });
             }
         }
 
+        #[cfg(feature = "verif")]
+        self.verif.point("append.stored", Some(&frame));
         let _ = self.broadcast_tx.send(frame.clone());
+        #[cfg(feature = "verif")]
+        self.verif.point("append.sent", Some(&frame));
         Ok(frame)
     }
 
@@ -573,9 +654,76 @@ impl Store {
     }
 }
 
+#[cfg(feature = "verif")]
+impl Store {
+    pub fn verif_hooks(&self) -> &crate::verif::Hooks {
+        &self.verif
+    }
+
+    /// Raw keys / values of the three partitions and the in-memory context registry.
+    pub fn verif_dump(&self) -> crate::verif::Dump {
+        let mut contexts: Vec<_> = self.contexts.read().unwrap().iter().cloned().collect();
+        contexts.sort();
+        crate::verif::Dump {
+            stream: self
+                .frame_partition
+                .iter()
+                .map(|r| {
+                    let (k, v) = r.unwrap();
+                    (k.to_vec(), v.to_vec())
+                })
+                .collect(),
+            idx_topic: self
+                .idx_topic
+                .iter()
+                .map(|r| r.unwrap().0.to_vec())
+                .collect(),
+            idx_context: self
+                .idx_context
+                .iter()
+                .map(|r| r.unwrap().0.to_vec())
+                .collect(),
+            contexts,
+        }
+    }
+
+    /// Force the memtable of one partition ("stream", "idx_topic", "idx_context") to disk.
+    pub fn verif_flush(&self, partition: &str) -> Result<(), crate::error::Error> {
+        let p = match partition {
+            "stream" => &self.frame_partition,
+            "idx_topic" => &self.idx_topic,
+            "idx_context" => &self.idx_context,
+            _ => return Err("unknown partition".into()),
+        };
+        p.rotate_memtable_and_wait()?;
+        Ok(())
+    }
+
+    /// Ask the GC worker to exit so that dropping the remaining clones closes the store.
+    pub fn verif_close(&self) {
+        self.verif.gc_enqueued(crate::verif::GcKind::Stop);
+        let _ = self.gc_tx.send(GCTask::VerifStop);
+    }
+}
+
 fn spawn_gc_worker(mut gc_rx: UnboundedReceiver<GCTask>, store: Store) {
     std::thread::spawn(move || {
         while let Some(task) = gc_rx.blocking_recv() {
+            #[cfg(feature = "verif")]
+            store.verif.gc_gate(match &task {
+                GCTask::Remove(id) => crate::verif::GcKind::Remove(id),
+                GCTask::CheckHeadTTL {
+                    context_id,
+                    topic,
+                    keep,
+                } => crate::verif::GcKind::CheckHead {
+                    context_id,
+                    topic,
+                    keep: *keep,
+                },
+                GCTask::Drain(_) => crate::verif::GcKind::Drain,
+                GCTask::VerifStop => crate::verif::GcKind::Stop,
+            });
             match task {
                 GCTask::Remove(id) => {
                     let _ = store.remove(&id);
@@ -605,7 +753,12 @@ fn spawn_gc_worker(mut gc_rx: UnboundedReceiver<GCTask>, store: Store) {
                 GCTask::Drain(tx) => {
                     let _ = tx.send(());
                 }
+
+                #[cfg(feature = "verif")]
+                GCTask::VerifStop => break,
             }
+            #[cfg(feature = "verif")]
+            store.verif.gc_done();
         }
     });
 }
@@ -617,6 +770,8 @@ fn is_expired(id: &Scru128Id, ttl: &Duration) -> bool {
         .duration_since(std::time::UNIX_EPOCH)
         .unwrap()
         .as_millis() as u64;
+    #[cfg(feature = "verif")]
+    let now_ms = crate::verif::clock_override().unwrap_or(now_ms);
 
     now_ms >= expires_ms
 }
